@@ -401,7 +401,14 @@ def _tie_options(rs):
             for j in range(i + 1, len(shapes)):
                 same = shapes[i] == shapes[j] if node["op"] in ("Cat", "Matmul") else shapes[i][-2:] == shapes[j][-2:]
                 if same and _all_literals([node["args"][i]]) and json.dumps(node["args"][i]) != json.dumps(node["args"][j]):
-                    opts.append(("sub", node, (i, j)))
+                    # (the node must keep its shape: the argument that carries the full batch shape is not always the first one)
+                    trial = dict(node, args=[node["args"][i] if q == j else a for q, a in enumerate(node["args"])])
+                    try:
+                        keeps = refmodel.shape(trial) == refmodel.shape(node)
+                    except Exception:
+                        keeps = False
+                    if keeps:
+                        opts.append(("sub", node, (i, j)))
     cand = [(node, k, v) for node, k, v in lits if (node["op"], k) in TIE_KINDS]
     preds = {}
     for i, (n1, k1, v1) in enumerate(cand):
@@ -1116,6 +1123,17 @@ def _internal_kappa(r):
             subs = [a for a in node["args"] if gen.is_diag_instance(a)]
         for s in subs:
             k = max(k, _kappa(refmodel.dense(s)))
+        if op == "LowRankRootAddedDiag":
+            # Woodbury: (L L^T + D)^-1 b = D^-1 b - D^-1 L (I + L^T D^-1 L)^-1 L^T D^-1 b  -- a difference of two terms of size
+            # |D^-1| |b| that cancels down to |A^-1 b| >= |b| / |A|: rounding errors are amplified by  lambda_max(A) / lambda_min(D)
+            # (>= kappa(A), much larger when the low-rank part dominates the diagonal)
+            A_ = refmodel.dense(node)
+            for s in subs:
+                d_ = refmodel.dense(s).diagonal(dim1=-2, dim2=-1)
+                if d_.numel() and A_.shape[-1] == A_.shape[-2]:
+                    top = torch.linalg.eigvalsh(_sym(A_)).abs().max(dim=-1)[0]
+                    lo = d_.min(dim=-1)[0]
+                    k = max(k, float((top / lo).max()) if bool((lo > 0).all()) else float("inf"))
     return k
 
 
